@@ -148,6 +148,9 @@ def e2e(chk: Check, cases, rng, n):
             case["relations"] = [{"source": "b", "target": "a", "param": 2, "ivs": tiv, "single": len(tiv) == 1 and rng.random() < 0.5}]
         elif kind == "weight":
             case["weights"] = [{"datasets": ["d1"], "givs": tiv, "mivs": [], "value": 3}]
+            if rng.random() < 0.5:
+                # a second weight on the same dataset without interval acts everywhere (factor 1 here so that the pattern stays readable: 3 vs 1 ... times 1)
+                case["weights"].append({"datasets": ["d1"], "givs": [], "mivs": [[0, 0]], "value": 7})
         else:
             case["penalties"] = [{"source": "a", "sivs": tiv, "target": "b", "tivs": [], "param": 2, "weight": 3}]
         desc = f"{kind} axis={coords} intervals={tiv} link={link}"
@@ -185,8 +188,10 @@ def e2e(chk: Check, cases, rng, n):
             if "weight" not in rd:
                 chk.violation(f"Intervals[e2e weight missing]: {kinds}", f"{desc}: no weight in result", rep)
                 continue
-            aff = {p for p in axis if float(rd.weight.sel(spectral=p / 2, time=0.0)) == 3.0}
-            other = {p for p in axis if float(rd.weight.sel(spectral=p / 2, time=0.0)) == 1.0}
+            second = len(case["weights"]) > 1      # second weight: every global index, model coordinate 0 only -> factor 7 at time 0, nothing at time 1
+            f0 = 7.0 if second else 1.0
+            aff = {p for p in axis if float(rd.weight.sel(spectral=p / 2, time=0.0)) == 3.0 * f0 and float(rd.weight.sel(spectral=p / 2, time=1.0)) == 3.0}
+            other = {p for p in axis if float(rd.weight.sel(spectral=p / 2, time=0.0)) == f0 and float(rd.weight.sel(spectral=p / 2, time=1.0)) == 1.0}
             if aff | other != set(axis) or not (must <= aff <= may):
                 chk.violation(f"Intervals[e2e weight]: {kinds}", f"{desc}: weight applied at {sorted(p / 2 for p in aff)}, must contain {sorted(p / 2 for p in must)} within {sorted(p / 2 for p in may)}", rep)
         else:
